@@ -22,7 +22,10 @@ RULE = (
     "returned samples must be definite or the free prefix of a refused multi-file call), bounds coherent with it; a "
     "mismatched open raises and leaves the directory snapshot identical; a conflicting write raises; EVERY finalized "
     "file keeps its SHA-256 after EVERY step; after any number of refusals a write into a later free period succeeds "
-    "and reads back. Non-trivial: a restart landing inside or before existing data, or a refusal followed by a later "
+    "and reads back. Sessions also start in the last file periods of the subdirectory BEFORE one that exists and write across "
+    "the boundary (into a free or a finalized period); get_continuous_blocks must be in index order, disjoint and maximal and "
+    "equal the blocks of read(); read_vector_raw inside a block equals read(); the mismatch list includes the same rate written "
+    "as a different fraction (2n/2d). Non-trivial: a restart landing inside or before existing data, or a refusal followed by a later "
     "valid write."
 )
 ASSUMPTIONS = ["one session is open at a time", "overlay build against system HDF5 1.10.8"]
@@ -211,6 +214,23 @@ def histories(draw, tier):
 
 def strategy(tier):
     return histories(tier)
+
+
+def directed_cases(tier):
+    """Three sessions over two top-level directories: the directory listed FIRST holds the middle of the recording, the one
+    listed second its beginning and its end (and the mirror image), read through one reader."""
+    out = []
+    for cont in (0, 1):
+        cfg = {"kind": "i", "size": 2, "order": "<", "cplx": 0, "form": "struct", "nsub": 1, "n": 100, "d": 1, "F": 1000, "S": 10,
+               "cont": cont, "comp": 0, "checksum": 0, "salt": 5, "uuid": "verif", "start": 150000000000}
+        b = cfg["start"]
+        for dirs in ((0, 1, 1), (1, 0, 0), (0, 1, 0)):
+            steps = []
+            for j, (d, st0, ln) in enumerate(zip(dirs, (b + 1000, b, b + 3000), (150, 120, 130))):
+                steps += [{"s": "open", "dir": d, "start": st0, "salt": 2000 + j, "uuid": "sess%d" % (j + 1), "mode": "later" if j != 1 else "earlier"},
+                          {"s": "write", "op": {"op": "w", "idx": 0, "len": ln, "cid": j}, "expect": "ok"}, {"s": "close"}, {"s": "read"}]
+            out.append({"cfg": cfg, "ndirs": 2, "steps": steps})
+    return out
 
 
 # ------------------------------------------------------------------ reuse by other checks (their "second stage")
